@@ -806,6 +806,11 @@ impl Manager {
         //           TxUpdate Sender which it can use to send data updates to
         //           to the RxUpdate Receiver which is now held by the Link
         //           (stored in a LinkConnection object).
+        // Start from an empty set of gates: a previous load that failed
+        // part way through deserialization must not leave its gates behind
+        // for this load to trip over.
+        GATES.with(|gates| gates.replace(Some(Default::default())));
+
         Config::from_bytes(file.bytes(), file.dir()).map_err(|err| {
             match file.path() {
                 Some(path) => error!("{}: {}", path.display(), err),
